@@ -24,7 +24,7 @@ func RebaseRef(baseRef string, ref string) string {
 		return ref
 	}
 
-	parts := strings.Split(ref, "#")
+	parts := strings.SplitN(ref, "#", 2) // the (unescaped) fragment may itself contain '#'
 
 	baseParts := strings.Split(baseRef, "#")
 	baseURL, _ := url.Parse(baseParts[0])
